@@ -4,6 +4,7 @@ import (
 	"bytes"
 	"encoding/hex"
 	"fmt"
+	"net"
 
 	"github.com/miekg/dns"
 	"pgregory.net/rapid"
@@ -17,7 +18,8 @@ import (
 // message round trip against the independent encoder
 
 type msgCase struct {
-	M wm.Msg
+	M     wm.Msg
+	Spell uint64 `json:",omitempty"` // representation choices for the library value (name spelling, IPv4 form); 0: canonical
 }
 
 func typeName(t uint16) string {
@@ -87,9 +89,14 @@ func noteMsg(m wm.Msg, w []byte) {
 func checkMsg(c msgCase) error {
 	m := c.M
 	w, encErr := wm.Encode(m)
+	restore := wm.Spelling(c.Spell)
 	lib, err := wm.MsgToLib(m, false)
+	restore()
 	if err != nil {
 		return nil // generator bug, not the library's (never happens; keeps replay files honest)
+	}
+	if c.Spell != 0 {
+		pbt.Class("alternative-representation")
 	}
 	p, packErr := lib.Pack()
 	if encErr != nil {
@@ -182,7 +189,11 @@ func genMsg(t *rapid.T) msgCase {
 			m.Rcode = rapid.SampledFrom([]int{4096, 4097, 65535, 65536, 1 << 20, -1, -4096}).Draw(t, "rcout")
 		}
 	}
-	return msgCase{M: m}
+	c := msgCase{M: m}
+	if rapid.IntRange(0, 3).Draw(t, "respell") == 0 {
+		c.Spell = rapid.Uint64().Draw(t, "spell")
+	}
+	return c
 }
 
 // genCounts draws a message whose sections hold very many very small records: the section counts
@@ -298,12 +309,18 @@ func checkRR(c rrCase) error {
 	}
 	// RFC 3597 view of a typed record
 	if _, known := wm.Layout[r.Type]; known && !r.NoRdata && r.Type != wm.TOPT && r.Type != wm.TPrivate {
+		// (RDATA-less records: see the known finding nordata-repack; records whose empty RDATA is a
+		// value - TXT without strings, APL without prefixes, NULL - are in)
+		// the receiver is a value that was used for another record before (one scratch value in a loop)
 		g := new(dns.RFC3597)
+		if err := g.ToRFC3597(&dns.A{Hdr: dns.RR_Header{Name: "prev.example.", Rrtype: dns.TypeA, Class: 1, Ttl: 9}, A: net.IP{192, 0, 2, 1}}); err != nil {
+			return pbt.Errf("ToRFC3597 of an A record: %v", err)
+		}
 		if err := g.ToRFC3597(u); err != nil {
 			return pbt.Errf("ToRFC3597: %v", err)
 		}
 		if g.Rdata != hex.EncodeToString(rd) {
-			return pbt.Errf("ToRFC3597 RDATA %s want %s", hx([]byte(g.Rdata)), hx(rd))
+			return pbt.Errf("ToRFC3597 (receiver used before) RDATA %s want %s", hx([]byte(g.Rdata)), hx(rd))
 		}
 		if g.Hdr.Rrtype != r.Type || g.Hdr.Class != r.Class || g.Hdr.Ttl != r.TTL {
 			return pbt.Errf("ToRFC3597 header %+v", g.Hdr)
